@@ -114,8 +114,8 @@ CHECKS = {
         "require_ops": ["strict.is_acyclic", "strict.is_monogamous", "hyper.in_degree", "hyper.out_degree", "hyper.is_acyclic"],
     },
     "C18": {
-        "quick": {"gen": [G("MC_C18", "MC_C18_quick.cfg")], "drive": [D("graphs", 4000, only=["arrow."])]},
-        "thorough": {"gen": [G("MC_C18", "MC_C18_thorough.cfg")], "drive": [D("graphs", 60000, only=["arrow."])]},
+        "quick": {"gen": [G("MC_C18", "MC_C18_quick.cfg"), G("MC_C18", "MC_C18_mono.cfg")], "drive": [D("graphs", 4000, only=["arrow."])]},
+        "thorough": {"gen": [G("MC_C18", "MC_C18_thorough.cfg"), G("MC_C18", "MC_C18_mono.cfg")], "drive": [D("graphs", 60000, only=["arrow."])]},
         "require_ops": ["arrow.new", "arrow.is_monomorphism", "arrow.is_convex_subgraph"],
     },
     "C19": {
